@@ -85,8 +85,9 @@ def one_shape(col, n, edges, rng, variants, sample=False):
     huge = rng.random() < 0.15
     if huge:
         # priorities beyond 2**53 that differ by little: integers are compared exactly however large they are (sums over distinct
-        # descendant sets still differ: k * 2**53 + a sum of distinct powers of ten)
-        prios = [2 ** 53 + p for p in prios]
+        # descendant sets still differ: k * 2**60 + a sum of distinct powers of two)
+        prios = [2 ** 60 + 2 ** i for i in range(n)]  # (gaps of 1, 2, 4 ... at a magnitude where doubles are 256 apart)
+        rng.shuffle(prios)
         col.counters["cp_shapes_with_priorities_beyond_2_to_the_53"] += 1
     elif rng.random() < 0.4:
         # signed powers of ten: sums over distinct descendant sets stay pairwise different (coefficients in {-1, 0, 1})
